@@ -1633,8 +1633,14 @@ func merge(rng *hx.Rng, hs [][]string) []string {
 // genBulk: two instances and 30-90 keys — instance 0 inserts all of them, commits, is reopened, deletes about half and
 // overwrites some, commits, is reopened and reads everything back; instance 1 receives the final contents directly, in
 // another order: one root class.  (Sizes beyond the handful of keys of the other sessions: deeper tries, more raw keys.)
+// bulkScale is the tier's scale (1 quick, 20 thorough): in the thorough tier one bulk session in eight holds 300-1200 keys.
+var bulkScale = 1
+
 func genBulk(rng *hx.Rng) []string {
 	n := rng.Range(30, 90)
+	if bulkScale > 1 && rng.Chance(1, 8) {
+		n = rng.Range(300, 1200)
+	}
 	seen := map[string]bool{}
 	var keys []string
 	for len(keys) < n {
@@ -1983,6 +1989,8 @@ func emitCase(r *hx.Run, sub uint64, ops []string) {
 		}
 	}
 	switch {
+	case maxKeys >= 150:
+		r.Count("session:final-keys>=150")
 	case maxKeys >= 30:
 		r.Count("session:final-keys>=30")
 	case maxKeys >= 10:
@@ -2098,6 +2106,7 @@ func main() {
 		runCase(r, 0, c)
 	}
 	n := 1500 * r.Scale
+	bulkScale = r.Scale
 	for i := 0; i < n; i++ {
 		rng, sub := r.Rng.Fork()
 		runCase(r, sub, genSession(rng, clusters, 30))
